@@ -931,7 +931,7 @@ class SplitJacobian(Jacobian):
                     if self._is_explicitcomp:
                         # dr/do = -I
                         doutarr -= dresids
-                    else:
+                    elif self._dr_do_mtx is not None:
                         doutarr += self._dr_do_mtx._prod(dresids, mode)
 
                 if d_inputs._names and drdi_mtx is not None:
